@@ -53,6 +53,13 @@ CHECKS = {
    note="Not judged: des3 string-to-key of empty password with empty salt (n-fold of the empty string is undefined); EncryptionKey.KeyType label when the hinted etype differs from the requested one. PA-data encodings come from the independent DER writer.",
    technique="bounded-exhaustive enumeration of input grids on the real code against a reference model (RFC vectors + JDK as second oracle)",
    engine="enum"),
+ "C09": dict(
+   category="model_checking",
+   text="The real Client.Login and Client.GetServiceTicket run over the in-memory network against a simulated RFC 4120 KDC built on the reference encoder and crypto, in adversary mode: for each etype(6) x credential kind {keytab, password} x exchange {AS, AS after PREAUTH_REQUIRED, TGS}, the genuine reply and each single perturbation (nonce +-1/0, cname changed/added/emptied, crealm, enc sname/srealm, KDC time at and 1 s beyond the skew bound in both directions, enc-part under a random key / a service key / another key usage / the ticket usage, wrong message type and application tag, truncations, appended bytes, truncated and empty replies, every bit of the first and last 16 ciphertext bytes) must be accepted or rejected as the property says; a rejected reply must leave no session and no cached ticket, an accepted one must leave exactly the ticket and key of the KDC's issue log. Stale replies answering an earlier nonce, every KRB-ERROR code 0..100 plus three unassigned ones for both exchanges (the error must carry the code, retries bounded) and ASRep.Verify with requested addresses (equal, reordered, superset, disjoint, other type).",
+   design="DESIGN.md 2/C09",
+   note="Not judged (statement silent): crealm/sname/srealm of TGS replies, the ticket's clear-text realm, the unauthenticated etype label of the enc-part, caddr in a reply when none were requested. Benign variations that must be accepted: enc-part application tag 25<->26, name-type-only change. Trusts the simulated KDC (validated by driving gokrb5's own client through all six etypes).",
+   technique="bounded-exhaustive enumeration of single-field perturbations of genuine replies x etype x credential x exchange on the real client against a simulated KDC",
+   engine="enum"),
  "C13": dict(
    category="model_checking",
    text="For each of the 17 listed types a baseline value, every single field variant and every pair of variants of different fields (optionals present/absent, integers at the 8/16/32-bit boundaries and negative, 0-4 name components, string lengths {0,1,127,128,255,256,65535,65536}, every flag bit, 0-3 additional tickets, 1-9 etypes) is encoded by the independent strict-DER reference (which reproduces the MIT reference encodings byte for byte), decoded by gokrb5 and re-encoded: the bytes must be identical, which makes the independent decoder's view of gokrb5's output equal to the model. The same for real encrypted Ticket / AP-REQ / AS-REP / TGS-REP / KRB-PRIV of every etype after Decrypt / Verify / DecryptEncPart; values built with gokrb5's constructors (SetFlag for every bit, NewKRBError, MarshalTicketSequence, AddASNAppTag) are decoded by the strict reference decoder; MarshalLengthBytes / GetLengthFromASN / GetNumberBytesInLengthHeader are compared with the reference for every length 0..2^24.",
